@@ -93,6 +93,7 @@ func (u *universe) tx(c int, v uint64, locked []int) channel.Transaction {
 	}
 	st := &channel.State{
 		ID: u.ids[c], Version: v, App: channel.NoApp(), Data: channel.NoData(),
+		IsFinal: v%4 == 3, // the watcher treats final transactions like any other
 		Allocation: channel.Allocation{
 			Assets:   []channel.Asset{&simchannel.Asset{ID: 7}},
 			Backends: []wallet.BackendID{0},
@@ -299,6 +300,9 @@ func (r *runner) checkRegArgs(op string, c regCall, exp *expReg) *h.Failure {
 	if c.req.Params == nil || c.req.Params.ID() != r.u.ids[0] {
 		return h.Failf("register-args:parent-params", "after %v: Register request does not carry the ledger channel's parameters", op)
 	}
+	if c.req.Secondary {
+		return h.Failf("register-args:secondary", "after %v: the watcher's Register request (version %d) is marked secondary: a backend need not send it, and the party that registered the old state will not", op, c.req.Tx.Version)
+	}
 	if d := sameTx(c.req.Tx.State, c.req.Tx.Sigs, r.u.tx(0, exp.ParentV, exp.ParentLocked)); d != "" {
 		return h.Failf("register-args:parent-tx", "after %v: Register request is not the newest published ledger-channel transaction (version %d, locked %v): %s", op, exp.ParentV, exp.ParentLocked, d)
 	}
@@ -429,8 +433,22 @@ func (r *runner) step(op Op) (e *expect, _ *h.Failure) {
 		if op.K == "stopp" {
 			id = r.u.ids[0]
 		}
+		if op.Late && op.K == "stopsub" {
+			if sub := r.rs.sub(id); sub != nil {
+				t := fresh(r.u.tx(op.C, 0, nil))
+				sub.mu.Lock()
+				sub.late = channel.NewRegisteredEvent(id, &channel.ElapsedTimeout{}, 0, t.State, t.Sigs)
+				sub.mu.Unlock()
+				r.o.Class("stop-with-late-event")
+			}
+		}
 		if fl := guarded("StopWatching", func() { err = r.w.StopWatching(ctx, id) }); fl != nil {
 			return e, fl
+		}
+		if op.Late && op.K == "stopsub" {
+			// whether an event that arrives while the channel is being de-registered
+			// is still acted upon is left open: calls it caused are not judged
+			_ = r.rs.takeCalls()
 		}
 		switch e.stop {
 		case stopMustSucceed:
@@ -825,7 +843,7 @@ func pickOp(m *model, raw rawOp, allowEnd bool) (op Op, ok bool) {
 			cs = append(cs, cand{2, Op{K: "startsub", C: j}})
 		}
 		if m.watched(j) {
-			cs = append(cs, cand{2, Op{K: "pubs", C: j}}, cand{1, Op{K: "stopsub", C: j}}, cand{1, Op{K: "startagain", C: j}})
+			cs = append(cs, cand{2, Op{K: "pubs", C: j}}, cand{1, Op{K: "stopsub", C: j}}, cand{1, Op{K: "stopsub", C: j, Late: true}}, cand{1, Op{K: "startagain", C: j}})
 		}
 	}
 	if len(watched) > 0 {
